@@ -391,6 +391,19 @@ bool AnalyserModel::needAcothFunction() const
     return mPimpl->mNeedAcothFunction;
 }
 
+AnalyserModel::AnalyserModelImpl::EquivalenceCacheKey AnalyserModel::AnalyserModelImpl::equivalenceCacheKey(uintptr_t v1, uintptr_t v2)
+{
+    // The key is the unordered pair of the two addresses, i.e. the pair with its
+    // smaller member first. (A Cantor pairing of the addresses computed in
+    // uintptr_t wraps around and is then no longer unique.)
+
+    if (v2 < v1) {
+        return std::make_pair(v2, v1);
+    }
+
+    return std::make_pair(v1, v2);
+}
+
 bool AnalyserModel::areEquivalentVariables(const VariablePtr &variable1,
                                            const VariablePtr &variable2)
 {
@@ -399,20 +412,10 @@ bool AnalyserModel::areEquivalentVariables(const VariablePtr &variable1,
     // means that we can safely cache the result of a call to that utility. In
     // turn, this means that we can speed up any feature (e.g., code generation)
     // that also relies on that utility. When it comes to the key for the cache,
-    // we use the Cantor pairing function with the address of the two variables
-    // as parameters, thus ensuring the uniqueness of the key (see
-    // https://en.wikipedia.org/wiki/Pairing_function#Cantor_pairing_function).
+    // we use the unordered pair of the addresses of the two variables.
 
-    auto v1 = reinterpret_cast<uintptr_t>(variable1.get());
-    auto v2 = reinterpret_cast<uintptr_t>(variable2.get());
-
-    if (v2 < v1) {
-        v1 += v2;
-        v2 = v1 - v2;
-        v1 = v1 - v2;
-    }
-
-    auto key = ((v1 + v2) * (v1 + v2 + 1) >> 1U) + v2;
+    auto key = AnalyserModelImpl::equivalenceCacheKey(reinterpret_cast<uintptr_t>(variable1.get()),
+                                                      reinterpret_cast<uintptr_t>(variable2.get()));
     auto cacheKey = mPimpl->mCachedEquivalentVariables.find(key);
 
     if (cacheKey != mPimpl->mCachedEquivalentVariables.end()) {
